@@ -111,6 +111,14 @@ def parse_states(out):
 
 
 def build(binname, features=None):
+    if features and features.startswith("@"):
+        # a run MODE, not a cargo feature: "@deep" = the recorder built with the dev profile (opt-level 0, where
+        # recursion is not turned into loops) and run with --tier deep (long inputs, stack use measured)
+        cmd = ["cargo", "build", "--offline", "--bin", binname, "--target-dir", "target_dev"]
+        p = subprocess.run(cmd, cwd=HARNESS, stdout=subprocess.PIPE, stderr=subprocess.STDOUT)
+        if p.returncode != 0:
+            raise ToolError("harness build (dev profile) failed:\n" + p.stdout.decode("utf-8", "replace")[-4000:])
+        return os.path.join(HARNESS, "target_dev", "debug", binname)
     cmd = ["cargo", "build", "--release", "--offline", "--bin", binname]
     tdir = "target"
     if features:
@@ -232,11 +240,16 @@ def index_case_descs(shards, wanted):
                 if '"ev":"case"' not in line[:400] and '"ev":"case"' not in line[-40:]:
                     continue
                 m = re.search(r'"case":(\d+)', line)
-                if m and int(m.group(1)) in wanted and '"ev":"case"' in line:
+                if m and (fs_of_shard(s), int(m.group(1))) in wanted and '"ev":"case"' in line:
                     o = json.loads(line)
                     if o.get("ev") == "case":
-                        out[o["case"]] = o["desc"]
+                        out[(fs_of_shard(s), o["case"])] = o["desc"]
     return out
+
+
+def fs_of_shard(shard):
+    """Feature set / run mode a shard was recorded with (case ids restart at 1 in every recorder run)."""
+    return os.path.basename(os.path.dirname(shard))[len("trace_"):]
 
 
 def kind_of(desc):
@@ -305,7 +318,8 @@ def check(pid, tier, seed, replay=None):
     summaries = []
     for fs, binpath in bins:
         out = os.path.join(workdir, "trace_" + (fs or "default"))
-        cmd = [binpath, "--tier", tier, "--seed", str(seed), "--out", out, "--shards", str(min(16, NCPU))]
+        run_tier = fs[1:] if (fs or "").startswith("@") else tier
+        cmd = [binpath, "--tier", run_tier, "--seed", str(seed), "--out", out, "--shards", str(min(16, NCPU))]
         if replay:
             cfile = os.path.join(workdir, "replay_cases.ndjson")
             with open(replay) as f:
@@ -380,7 +394,7 @@ def check(pid, tier, seed, replay=None):
                 vacuity.append("vacuity guard: trace spec statistic '%s' is zero" % need)
     failing_cases = {}
     for v in verdicts:
-        failing_cases.setdefault(v["case"], []).append(v)
+        failing_cases.setdefault((v.get("features") or "default", v["case"]), []).append(v)
     known_hits = {}
     violations = []
     desc_cache = index_case_descs(shards, set(failing_cases.keys()))
@@ -411,7 +425,7 @@ def check(pid, tier, seed, replay=None):
         if shown >= 25:
             continue
         shown += 1
-        path = os.path.join(rdir, "case_%d_seed%d.json" % (case, seed))
+        path = os.path.join(rdir, "case_%d%s_seed%d.json" % (case[1], "" if case[0] == "default" else "_" + re.sub(r"\W", "", case[0]), seed))
         with open(path, "w") as f:
             vs_case = [x for (c, d, x) in violations if c == case]
             json.dump({"property": pid, "tier": tier, "seed": seed, "desc": desc,
